@@ -20,8 +20,8 @@ import (
 const raHeader = "##! Please refer to the documentation at\n##! https://coreruleset.org/docs/development/regex_assembly/.\n"
 
 type FmtFile struct {
-	Path     string   `json:"path"`   // world path of the file under test
-	Arg      string   `json:"arg"`    // argument for `regex format` / `regex generate`
+	Path     string   `json:"path"` // world path of the file under test
+	Arg      string   `json:"arg"`  // argument for `regex format` / `regex generate`
 	IsInc    bool     `json:"is_include"`
 	Canon    string   `json:"canon,omitempty"` // reference rendering ("" for token soup)
 	HasFlags bool     `json:"has_flags"`
